@@ -16,6 +16,7 @@ fn main() {
         "noop" => 0,
         "hist" => engine_hist(&args),
         "thin" => engine_thin(&args),
+        "slices" => engine_slices(&args),
         "conc" => engine_conc(&args),
         "ctor" => engine_ctor(&args),
         "faults" => engine_faults(&args),
@@ -743,5 +744,50 @@ fn engine_serde(args: &Args) -> i32 {
         0
     } else {
         1
+    }
+}
+
+fn engine_slices(args: &Args) -> i32 {
+    let seed = args.u64("seed", 1);
+    let n = args.u64("n", 100);
+    let ops = args.u64("ops", 200) as usize;
+    let first = args.u64("first", 0);
+    let light = args.has("light");
+    let mut st = hist::Stats::new();
+    let mut nviol = 0;
+    let shapes = ["T8", "T32", "TB", "T1", "Z", "T64"];
+    for k in first..first + n {
+        let hseed = seed.wrapping_mul(0x1000_0000).wrapping_add(k);
+        let shape = shapes[(k % shapes.len() as u64) as usize];
+        let r = match shape {
+            "T8" => tv::slices::run_one::<tk::T8>(hseed, ops, light, &mut st),
+            "T32" => tv::slices::run_one::<tk::T32>(hseed, ops, light, &mut st),
+            "TB" => tv::slices::run_one::<tk::TB>(hseed, ops, light, &mut st),
+            "T1" => tv::slices::run_one::<tk::T1>(hseed, ops, light, &mut st),
+            "Z" => tv::slices::run_one::<tk::Z>(hseed, ops, light, &mut st),
+            _ => tv::slices::run_one::<tk::T64>(hseed, ops, light, &mut st),
+        };
+        st.counts.bump(&format!("slices.shape.{}", shape));
+        if let Err((vs, trace)) = r {
+            for v in &vs {
+                emit_violation(v, "slices", seed, &format!("k={} shape={} ops={}", k, shape, ops), &trace);
+            }
+            nviol += 1;
+            if nviol >= 5 {
+                break;
+            }
+        }
+    }
+    println!(
+        "@@{{\"t\":\"stats\",\"engine\":\"slices\",\"counts\":{},\"shadow\":{},\"checked_frees\":{},\"overflow\":{}}}",
+        st.counts.json(),
+        shadow::active(),
+        shadow::checked_frees(),
+        shadow::overflowed()
+    );
+    if nviol > 0 {
+        1
+    } else {
+        0
     }
 }
